@@ -114,6 +114,7 @@ type CallBind struct {
 
 type CallAssert struct {
 	Assume  bool   // assumed (listed in the evidence) instead of proved
+	After   bool   // (assumptions only) holds in the state after the call returns
 	Callee  string // "strconv.ParseInt"
 	Ordinal int
 	Expr    ast.Expr
@@ -740,6 +741,12 @@ func (sf *SpecFile) addItem(it *rawItem, pkg string) error {
 				fs.AfterLoop = append(fs.AfterLoop, CallAssert{Ordinal: n, Expr: c.Expr, Src: c.Src, Tags: c.Tags})
 			case "assume":
 				// assume call <callee>#<k>: <expr>   (an unchecked assumption at a call site; listed in the evidence)
+				// assume after call <callee>#<k>: <expr>   (the same, about the state after the call has returned)
+				after := false
+				if strings.HasPrefix(l.text, "after ") {
+					after = true
+					l.text = strings.TrimSpace(strings.TrimPrefix(l.text, "after "))
+				}
 				m := regexp.MustCompile(`^call\s+(\S+?)#(\d+)\s*:\s*(.*)$`).FindStringSubmatch(l.text)
 				if m == nil {
 					return fmt.Errorf("bad assume clause %q", l.text)
@@ -749,7 +756,7 @@ func (sf *SpecFile) addItem(it *rawItem, pkg string) error {
 				if err != nil {
 					return err
 				}
-				fs.Asserts = append(fs.Asserts, CallAssert{Assume: true, Callee: m[1], Ordinal: n, Expr: c.Expr, Src: c.Src, Tags: c.Tags})
+				fs.Asserts = append(fs.Asserts, CallAssert{Assume: true, After: after, Callee: m[1], Ordinal: n, Expr: c.Expr, Src: c.Src, Tags: c.Tags})
 			case "before":
 				// before call <callee>#<k>: assert <expr>
 				m := regexp.MustCompile(`^call\s+(\S+?)#(\d+)\s*:\s*assert\s+(.*)$`).FindStringSubmatch(l.text)
